@@ -82,12 +82,29 @@ func (c *HistCase) ID() string {
 }
 
 // the files of the histories also pull in an included file and an imported macro library of their OWN set
+// ... print a global that only the first set has, and the file a pulls in the file c through a name computed at run time
 func richSrc(name string, ver int) string {
-	return fileSrc(name, ver) + `{% include "inc" %}{% import "lib" lm %}{{ lm() }}`
+	s := fileSrc(name, ver) + `{% include "inc" %}{% import "lib" lm %}{{ lm() }}<{{ only1 }}>`
+	if strings.HasSuffix(name, "a") {
+		s += `{% include lz %}`
+	}
+	return s
 }
 
 func richRender(name string, ver, si int) string {
-	return renderOf(name, ver, si) + fmt.Sprintf("I%dL%d", si+1, si+1)
+	only := ""
+	if si == 0 {
+		only = "X1"
+	}
+	s := renderOf(name, ver, si) + fmt.Sprintf("I%dL%d<%s>", si+1, si+1, only)
+	if strings.HasSuffix(name, "a") {
+		c := "c"
+		if strings.HasPrefix(name, "/") {
+			c = "/c"
+		}
+		s += richRender(c, 1, si)
+	}
+	return s
 }
 
 // hworld: two sets over one of the loader kinds, with the handles the history needs
@@ -170,11 +187,13 @@ func newHistWorld(kind string) *hworld {
 	}
 	w.sets[0].Globals["g"] = "G1"
 	w.sets[1].Globals["g"] = "G2"
+	w.sets[0].Globals["only1"] = "X1" // a global of the first set only
+	w.sets[0].Globals["lz"], w.sets[1].Globals["lz"] = "c", "c"
 	w.sets[1].Options.TrimBlocks = true
 	return w
 }
 
-var seqOps = []string{"FC(1,a)", "FC(1,b)", "FC(2,a)", "FC(1,./a)", "CC(1)", "CC(1,a)", "CC(1,b)", "CC(1,a,b)", "CC(1,c,b)", "CC(1,b,a)", "CC(2)", "DBG(1)", "CHG(a)", "FAIL(a)", "OK(a)"}
+var seqOps = []string{"FC(1,a)", "FC(1,b)", "FC(2,a)", "FC(1,c)", "FC(1,./a)", "CC(1)", "CC(1,a)", "CC(1,b)", "CC(1,a,b)", "CC(1,c,b)", "CC(1,b,a)", "CC(2)", "DBG(1)", "CHG(a)", "FAIL(a)", "OK(a)"}
 
 type mEntry struct {
 	id  int // identity class of the cached template
@@ -579,7 +598,7 @@ func run(r *eng.Runner) {
 		return !r.Stopped()
 	})
 	// the same histories, one operation shorter, over pongo2's own FSLoader (cache keys are what its Abs makes of a name)
-	fsOps := []string{"FC(1,a)", "FC(1,b)", "FC(2,a)", "FC(1,./a)", "FC(1,d/../a)", "CC(1)", "CC(1,a)", "CC(1,./a)", "CC(1,b,./a)", "CC(2)", "DBG(1)", "CHG(a)", "FAIL(a)", "OK(a)"}
+	fsOps := []string{"FC(1,a)", "FC(1,b)", "FC(2,a)", "FC(1,c)", "FC(1,./a)", "FC(1,d/../a)", "CC(1)", "CC(1,a)", "CC(1,./a)", "CC(1,b,./a)", "CC(2)", "DBG(1)", "CHG(a)", "FAIL(a)", "OK(a)"}
 	r.Group("sequential-histories-fsloader", "c20.hist", fmt.Sprintf("every history of 0..%d operations over %d operations on two sets whose loader is pongo2's FSLoader (in-memory fs.FS behind a counting wrapper), with non-canonical spellings (./a, d/../a) of a name in FromCache and CleanCache", depth-1, len(fsOps)))
 	enum.Seqs(len(fsOps), depth-1, func(idx []int) bool {
 		ops := make([]string, len(idx))
